@@ -959,7 +959,8 @@ class Facts:
         self.renamed = apply_renames(doc, _load_inventory())
         self.inlined = apply_inlining(doc, _load_inventory())
         self.devirtualized = devirtualize_fn_values(doc)
-        from .desugar import unroll_literal_loops
+        from .desugar import unroll_literal_loops, inline_closure_calls_again
+        self.desugared += inline_closure_calls_again(doc)
         self.unrolled = unroll_literal_loops(doc)
         self.helper_paths = {h for _, h in self.inlined} | {c for _, c in self.desugared}
         self.adts = {a['path']: a for a in doc['adts']}
